@@ -617,7 +617,7 @@ func runInstance(ld *sym.Loaded, spec *Spec, rs *RunSpec, args []int64, known ma
 				fails, assumeBad, outp, err := nativeReplay(spec, rs.Harness, toInts(args), vals, knownList(known))
 				if err != nil {
 					res.inconcl = append(res.inconcl, fmt.Sprintf("UNCONFIRMED %s: replay failed: %v %s", q.id, err, tail(outp, 400)))
-				} else if contains(fails, q.id) && !assumeBad {
+				} else if contains(fails, q.id) {
 					if contains(rs.Informational, q.id) {
 						out[i].Note = "informational: fails (replay-confirmed), not part of the claim"
 						out[i].Expect = "sat"
@@ -820,12 +820,6 @@ func TestZZVerifReplay(t *testing.T) {
 		}()
 		f(vReplay.Args)
 	}()
-	for _, id := range vFailures {
-		fmt.Println("VERIF-FAIL", id)
-	}
-	for range vAssumeFailed {
-		fmt.Println("VERIF-ASSUME-FAILED")
-	}
 	for _, o := range vObs {
 		fmt.Println("VERIF-OBS", o)
 	}
@@ -903,7 +897,10 @@ func nativeReplayFile(spec *Spec, replayPath, tmp string) (fails []string, assum
 		l = strings.TrimSpace(l)
 		switch {
 		case strings.HasPrefix(l, "VERIF-FAIL "):
-			fails = append(fails, strings.TrimPrefix(l, "VERIF-FAIL "))
+			// an assertion counts only if no assumption failed before it (its path condition)
+			if !assumeBad {
+				fails = append(fails, strings.TrimPrefix(l, "VERIF-FAIL "))
+			}
 		case l == "VERIF-ASSUME-FAILED":
 			assumeBad = true
 		case l == "VERIF-DONE":
@@ -965,7 +962,7 @@ func cmdReplay(a []string) int {
 		fmt.Println("replay error:", err)
 		return 3
 	}
-	if contains(fails, rf.Obligation) && !assumeBad {
+	if contains(fails, rf.Obligation) {
 		fmt.Printf("REPRODUCED property=%s obligation=%s\n", rf.Property, rf.Obligation)
 		return 1
 	}
